@@ -274,14 +274,31 @@ class SigmaString(SigmaType):
             s.s = result
             return s
 
-    def insert_placeholders(self) -> "SigmaString":
+    def insert_placeholders(self, verbatim: bool = False) -> "SigmaString":
         """
         Replace %something% placeholders with Placeholder stub objects that can be later handled by the processing
         pipeline. This implements the expand modifier.
+
+        With verbatim set the string is taken as text in which backslash pairs were not resolved (a
+        regular expression): a percent sign is escaped only by an odd number of backslashes.
         """
+        if verbatim:
+            placeholder = re.compile("(?<!\\\\)(?P<bs>(?:\\\\\\\\)*)%(?P<name>[^%]+)%")
+            escaped_percent = re.compile("(?<!\\\\)((?:\\\\\\\\)*)\\\\%")
         res: list[str | SpecialChars | Placeholder] = []
         for part in self.s:  # iterate over all parts and...
-            if isinstance(part, str):  # ...search in strings...
+            if isinstance(part, str) and verbatim:
+                lastpos = 0
+                for m in placeholder.finditer(part):
+                    s = escaped_percent.sub("\\1%", part[lastpos : m.start()] + m["bs"])
+                    if s != "":
+                        res.append(s)
+                    res.append(Placeholder(m["name"]))
+                    lastpos = m.end()
+                s = escaped_percent.sub("\\1%", part[lastpos:])
+                if s != "":
+                    res.append(s)
+            elif isinstance(part, str):  # ...search in strings...
                 lastpos = 0
                 for m in re.finditer("(?<!\\\\)%(?P<name>[^%]+)%", part):  # ...for placeholders
                     s = part[lastpos : m.start()].replace("\\%", "%")
@@ -850,7 +867,7 @@ class SigmaRegularExpression(SigmaType):
         Replace %something% placeholders with Placeholder stub objects that can be later handled by the processing
         pipeline. This implements the expand modifier.
         """
-        self.regexp = self.regexp.insert_placeholders()
+        self.regexp = self.regexp.insert_placeholders(verbatim=True)
         self.compile()  # recompile after inserting placeholders
         return self
 
